@@ -159,6 +159,22 @@ func TestExhaustiveLines(t *testing.T) {
 	kit.R.Note("exhaustive_lines", fmt.Sprintf("line-structured documents: %d atoms; quick = all pairs + all triples over %d atoms, thorough = all triples", len(full), len(gen.LineAtoms(false))))
 }
 
+// TestExhaustiveConstructs enumerates construct-adjacency documents: every
+// pair of ~70 block constructs and every triple over 24 (quick) / all
+// (thorough) constructs, each joined by a line end or a blank line.
+func TestExhaustiveConstructs(t *testing.T) {
+	cfgs := []gen.Config{{}, exhConfigs[1], exhConfigs[3]}
+	n := gen.EnumConstructDocs(kit.Thorough(), func(idx int, doc []byte) {
+		if !kit.Mine(idx) {
+			return
+		}
+		for _, cfg := range cfgs {
+			run(t, cfg, doc, "exhaustive-constructs")
+		}
+	})
+	kit.R.Note("exhaustive_constructs", fmt.Sprintf("%d construct-adjacency documents x %d configurations", n, len(cfgs)))
+}
+
 func FuzzAST(f *testing.F) {
 	for _, e := range gen.Spec() {
 		f.Add(uint16(0), []byte(e.Markdown))
